@@ -6,9 +6,7 @@
    connection_lost, GOAWAY, keepalive close, Channel.close(), task cancellation, pause/resume, answers. *)
 From Coq Require Import List Bool Arith.
 From Coq Require Import ZArith.
-From Coq Require String.
-Import String.StringSyntax.
-From GV Require Import Lib.Str Gen.FactsC16 Model.Channel Proofs.C16Proofs Proofs.C16Examples Proofs.C16Source.
+From GV Require Import Gen.FactsC16 Model.Channel Proofs.C16Proofs Proofs.C16Examples Proofs.C16Source.
 Import ListNotations.
 Open Scope nat_scope.
 
@@ -193,28 +191,23 @@ Theorem C16_fifo_is_schedule :
 Proof. exact batch_is_run. Qed.
 Print Assumptions C16_fifo_is_schedule.
 
-(* (10) the functions the model transcribes read, in /repo as it is now (Gen/FactsC16.v is regenerated on
-   every run), exactly as the text the model was written from (Proofs/C16Source.v): the double-checked
-   connect under the lock without re-check after the await, the three conjuncts of _connected,
-   close() = processor.close() + del _protocol, Handler.close, EventsProcessor.close, connection_lost,
-   process_connection_terminated, Connection.is_closing / close, the class attributes *)
-Open Scope string_scope.
+(* (10) what the model assumes about the source holds of /repo as it is now (Gen/FactsC16.v is regenerated on
+   every run by tools/facts_C16.py), stated as MEANING, not spelling:
+   - the control paths of Channel.__connect__ (private helpers inlined, tests normalised): connected test first,
+     fast path without await; re-check after acquiring the lock; exactly one create_connection await, inside the
+     lock, no other await; the protocol stored only after a successful attempt; an Exception re-raised to the
+     caller with the lock released and nothing stored; the stored attribute returned without re-check;
+   - probed on real objects: `connected` = protocol present, handler not closed, connection not closing;
+     connection_lost and EVERY GOAWAY (any error code / last_stream_id) terminate the registered streams and close
+     the transport, keepalive's Connection.close() only closes the transport; Channel.close() / __aexit__ terminate
+     the registered streams, close the transport once and drop the protocol in EVERY state *)
 Theorem C16_source_as_transcribed :
-  src_Channel_connected = map s2z exp_Channel_connected /\
-  src_Channel_connect = map s2z exp_Channel_connect /\
-  src_Channel_close = map s2z exp_Channel_close /\
-  src_Channel_aexit = map s2z exp_Channel_aexit /\
-  src_Channel_del = map s2z exp_Channel_del /\
-  src_Handler_close = map s2z exp_Handler_close /\
-  src_EventsProcessor_close = map s2z exp_EventsProcessor_close /\
-  src_EventsProcessor_process_connection_terminated = map s2z exp_EventsProcessor_process_connection_terminated /\
-  src_H2Protocol_connection_lost = map s2z exp_H2Protocol_connection_lost /\
-  src_Connection_is_closing = map s2z exp_Connection_is_closing /\
-  src_Connection_close = map s2z exp_Connection_close /\
-  async_Channel_connect = true /\
-  dec_Channel_connected = [s2z "property"] /\
-  async_Channel_close = false /\
-  channel_protocol_class_attr = s2z "None" /\
-  handler_connection_lost_class_attr = s2z "False".
-Proof. exact source_as_transcribed. Qed.
+  connect_paths = exp_connect_paths /\
+  connected_by_state = exp_connected_by_state /\
+  effects_by_state = exp_effects_by_state /\
+  close_by_state = repeat exp_close_row 9 /\
+  aexit_by_state = repeat exp_aexit_row 9 /\
+  close_without_protocol = [1; 0]%Z /\
+  connection_close_twice = [1; 1; 0; 1; 1; 0]%Z.
+Proof. exact source_meaning. Qed.
 Print Assumptions C16_source_as_transcribed.
